@@ -45,6 +45,5 @@ PY
   exit $?
 fi
 cd /verif
-go build -overlay "$OV" -o "$W/verif.mut" ./cmd/verif || { echo "MUTANT BUILD FAILED"; exit 2; }
-VERIF_ROOT="$W/root" "$W/verif.mut" "$WHAT" "$TIER" | grep -v '^  what' | cut -c1-400 | tail -6
+VERIF_EXTRA_OVERLAY="$OV" VERIF_ROOT="$W/root" VERIF_BINDIR="$W/bin" ./run "$WHAT" "$TIER" | grep -v "^  what" | cut -c1-400 | tail -6
 exit ${PIPESTATUS[0]}
